@@ -2,26 +2,39 @@
 property's statement (not from the Lean model).
 
 Every float of a request is taken from its bit pattern as an exact `Fraction`.  For a univariate
-polynomial  f = sum c_k x^k  on [a, b] with n segments, h = (b - a)/n, X = max(|a|, |b|, 1):
+polynomial  f = sum c_k x^k  on [a, b] with n segments, h = (b - a)/n, W = |b - a|, X = max(|a|, |b|):
 
   I      = sum c_k (b^(k+1) - a^(k+1)) / (k+1)                     (exact integral)
-  slack  = 64 n u  sum |c_k| X^(k+1),  u = 2^-53                   (rounding allowance, see below)
-  M4     = sum k(k-1)(k-2)(k-3) |c_k| X^(k-4)  >=  max |f''''| on the interval
+  B      = sum (k+1) |c_k| X^k                                     (>= max|f|, >= X max|f'| on the interval)
+  slack  = 32 (n + 8) u W B,  u = 2^-53                            (rounding allowance, see below)
+  M4     = min( sum k(k-1)(k-2)(k-3) |c_k| X^(k-4),
+                sum_j |f^(4+j)(m)| (W/2)^j / j! )  >=  max |f''''| on the interval   (m = midpoint; Taylor, exact)
 
   simpson, n >= 2 : |v - I| <= slack                     if deg <= 3   ("exact to rounding")
                     |v - I| <= |b-a| h^4 M4 / 80 + slack otherwise
   simpson, n = 1  : |v - (b-a)(f(a)+f(b))/2| <= slack    ("it is the trapezoid rule"), and
                     |v - I| <= slack                     if deg <= 1
   romberg         : outcome is `ok` or `err MaxIterationsReached` (never a panic; an evaluation error
-                    only for a polynomial that is not univariate), and `ok v` with deg <= 3 has
-                    |v - I| <= slack  (n = 512: the finest trapezoid sum the table can hold)
+                    exactly when the polynomial cannot be evaluated: several variables / an undeclared one), and
+                    `ok v` with deg <= 3 has  |v - I| <= 1024 u W B  (= slack at n = 24: the finest trapezoid sum a
+                    returned entry can rest on has 128 segments, derived bound (1.5*128 + 2*3 + 11) u W B = 209 u W B;
+                    Richardson extrapolation multiplies rounding errors by prod (4^k+1)/(4^k-1) < 2)
 
-Rounding allowance: the rule is  h * sum_i w_i f(x_i)  with  |h| sum w_i <= c |b - a| <= 2cX  (c <= 3).
-One evaluation of f errs by at most (k+2) u |c_k| X^k per term; the n additions of the running sum add
-at most n u times the partial sums; the accumulated abscissa `xi += 2h` drifts by at most n u X, which
-moves f by at most  n u sum k |c_k| X^k  (k <= 8).  Together this stays below
-(2·8 + 2 + 2·10/n + …) n u sum |c_k| X^(k+1) < 64 n u sum |c_k| X^(k+1); Richardson extrapolation in
-Romberg multiplies rounding errors by at most prod (4^k+1)/(4^k-1) < 2.
+Rounding allowance - every part is proportional to the interval width W, so that a result that is wrong by a
+fraction of the integral of a NARROW interval is seen (an absolute allowance would swallow it).  The rule is
+(h/d) sum_i w_i f(x_i) with (|h|/d) sum w_i = W exactly (it integrates constants exactly).
+  * abscissae: h = fl(fl(b-a)/n) carries 2 roundings; the running `xi += 2h` (or `xi += h`, `end - h*i`) adds one
+    rounding of size <= u X per step, so |dx_i| <= (n/2 + 4) u X; moving a sample by dx changes f by <= max|f'| dx:
+    in the rule  W (n/2 + 4) u X max|f'|  <=  (n/2 + 4) u W B;
+  * evaluations: powi / powf and the product err by <= (k + 2) u |c_k| |x|^k per term, the sum of the deg + 1 terms
+    by <= (deg + 1) u sum |c_k||x|^k: together <= (2 deg + 3) u B per sample, in the rule (2 deg + 3) u W B;
+  * weighted sum: n + 1 samples added one after the other, error <= n u sum w_i |f_i| <= n u (d n) max|f|; times
+    |h|/d: n u W B; the last `h * sum / d` and the rounding of h: 4 u W B.
+Total  <= (1.5 n + 2 deg + 11) u W B  (deg <= 12).  Measured on the unchanged code (thorough tier, seeds 0-2, 133 k
+requests each, narrow / tiny / scaled / long families included): the worst |v - reference| is 0.26 (n + 8) u W B for
+Simpson / trapezoid and 3.6 u W B for Romberg; the allowances 32 (n + 8) u W B and 1024 u W B leave a factor > 120
+(Simpson) / > 280 (Romberg) and exceed the derived bounds.
+An absolute floor 2^-1000 covers gradual underflow.
 """
 import struct
 from fractions import Fraction
@@ -33,8 +46,12 @@ RULE = ("simpson: the segment counts 1,2,3,4,5,7 on every degree 0..8 x both pol
         "kinds, then every n in 1..200 x (10 quick / 400 thorough) random polynomials (half of degree <= 3, half 4..8; "
         "small dyadic coefficients; intervals dyadic, reversed, empty, symmetric, decimal, arbitrary); romberg: every "
         "cap 0..64 x every tolerance in {-1,0,1e-12,1e-9,1e-6,1e-3,0.1,1,10} x (5 quick / 61 thorough) polynomials "
-        "incl. zero integrals, plus caps up to 2^32-1; non-trivial = the model returns a value (`ok`); "
-        "distinct = distinct request lines")
+        "incl. zero integrals, plus caps up to 2^32-1; hardening families: narrow intervals away from 0 (relative width "
+        "2^-8..2^-46), tiny intervals at and next to 0 (2^-30..2^-90), coefficient scales 2^-100..2^60, every n in "
+        "201..260 and around 2^9, 2^10, 2^12, 2^16, 2^17, 3*2^16, 2^18, 2^20, degrees 9..12, the zero polynomial in every "
+        "shape, signed-zero bounds, caps around 2^8 / 2^16 / 2^31 / 2^32, tolerances NaN / +-inf / 5e-324 / 1e300, "
+        "variables other than x and none at all, zero terms kept or dropped; non-trivial = the model returns a value "
+        "(`ok`); distinct = distinct request lines")
 
 
 def fr(bits):
@@ -89,10 +106,17 @@ def read_poly(t, i):
         declared.append(v)
     if len(declared) > 1 or not used <= set(declared[:1]):
         ok = False
+        global MUSTFAIL
+        MUSTFAIL = True
     return terms, ok, i
 
 
+MUSTFAIL = False   # set by read_poly: eval_univariate cannot succeed (several variables / an undeclared variable)
+
+
 def parse(req):
+    global MUSTFAIL
+    MUSTFAIL = False
     t = req.split()
     cmd = t[0]
     terms, uni, i = read_poly(t, 1)
@@ -118,12 +142,33 @@ def value(terms, x):
     return sum(c * x ** e for c, e in terms)
 
 
-def slack(terms, X, n):
-    return 64 * n * U * sum(abs(c) * X ** (e + 1) for c, e in terms)
+def slack(terms, a, b, n):
+    W = abs(b - a)
+    X = max(abs(a), abs(b))
+    B = sum((e + 1) * abs(c) * X ** e for c, e in terms)
+    return 32 * (n + 8) * U * W * B + Fraction(1, 2 ** 1000)
 
 
-def m4(terms, X):
-    return sum(e * (e - 1) * (e - 2) * (e - 3) * abs(c) * X ** (e - 4) for c, e in terms if e >= 4)
+def fact(j):
+    r = 1
+    for i in range(2, j + 1):
+        r *= i
+    return r
+
+
+def m4(terms, a, b):
+    # an upper bound of max |f(4)| on the interval: the smaller of the crude sum at X = max(|a|,|b|) and the Taylor
+    # expansion of f(4) about the midpoint (exact for a polynomial)
+    X = max(abs(a), abs(b))
+    crude = sum(e * (e - 1) * (e - 2) * (e - 3) * abs(c) * X ** (e - 4) for c, e in terms if e >= 4)
+    m, r = (a + b) / 2, abs(b - a) / 2
+    top = max([e for _, e in terms] + [0])
+    taylor = Fraction(0)
+    for j in range(0, top - 3):
+        # f^(4+j)(m) = sum_k k!/(k-4-j)! c_k m^(k-4-j)
+        d = sum(Fraction(fact(e), fact(e - 4 - j)) * c * m ** (e - 4 - j) for c, e in terms if e >= 4 + j)
+        taylor += abs(d) * r ** j / fact(j)
+    return min(crude, taylor)
 
 
 def oracle(req, impl):
@@ -136,11 +181,16 @@ def oracle(req, impl):
         return "empty observation"
     if out[0] == "panic":
         return "the integrator panicked"
+    if MUSTFAIL:
+        # the polynomial cannot be evaluated through the univariate entry point: the error has to come back as such,
+        # not as a number (n = 0 evaluates nothing)
+        if out[0] == "ok" and not (cmd == "simpson" and n == 0):
+            return "the polynomial cannot be evaluated (several / undeclared variables) but the integrator returned " + " ".join(out)
+        return None
     if not uni or a is None or b is None:
         return None  # not a univariate polynomial / non-finite interval: no clause of the property applies
     if out[0] == "err" and out[1] == "FunctionError":
         return "evaluation error on a valid univariate polynomial: " + " ".join(out)
-    X = max(abs(a), abs(b), 1)
     I = integral(terms, a, b)
     deg = degree(terms)
     if cmd == "simpson":
@@ -151,7 +201,7 @@ def oracle(req, impl):
         v = fr(out[1][1:])
         if v is None:
             return "non-finite result"
-        sl = slack(terms, X, n)
+        sl = slack(terms, a, b, n)
         if n == 1:
             trap = (b - a) * (value(terms, a) + value(terms, b)) / 2
             if abs(v - trap) > sl:
@@ -165,7 +215,7 @@ def oracle(req, impl):
                 return "degree %d, n=%d: not exact: |result - integral| = %.3g > rounding slack %.3g" % (
                     deg, n, float(abs(v - I)), float(sl))
             return None
-        bound = abs(b - a) * h ** 4 * m4(terms, X) / 80 + sl
+        bound = abs(b - a) * h ** 4 * m4(terms, a, b) / 80 + sl
         if abs(v - I) > bound:
             return "degree %d, n=%d: |result - integral| = %.3g > |b-a| h^4 max|f''''|/80 + slack = %.3g" % (
                 deg, n, float(abs(v - I)), float(bound))
@@ -179,7 +229,7 @@ def oracle(req, impl):
     if v is None:
         return "non-finite result"
     if deg <= 3:
-        sl = slack(terms, X, 512)
+        sl = slack(terms, a, b, 24)      # 1024 u W B
         if abs(v - I) > sl:
             return "romberg, degree %d: returned value off by %.3g > rounding slack %.3g" % (
                 deg, float(abs(v - I)), float(sl))
